@@ -293,6 +293,9 @@ func (s *Stmt) ArgSweep(t *tape.Tape, maxBytes int) (texts []string, kws []strin
 		if numberArg[kw] {
 			gs = append(append([]string{}, argGarbles...), numberGarbles...)
 		}
+		if dateArg[kw] {
+			gs = append(append([]string{}, argGarbles...), dateGarbles...)
+		}
 		for _, g := range gs {
 			x.Arg = g
 			txt := c.Text()
@@ -306,6 +309,10 @@ func (s *Stmt) ArgSweep(t *tape.Tape, maxBytes int) (texts []string, kws []strin
 	}
 	return texts, kws
 }
+
+// every field of a date one below its least and one above its greatest value, alone and together, and the shapes next to the right one
+var dateArg = map[string]bool{"revision": true, "revision-date": true}
+var dateGarbles = []string{"2019-00-01", "2019-01-00", "2019-00-00", "0000-00-00", "0000-01-01", "2019-13-01", "2019-12-32", "2019-02-29", "2020-02-29", "2019-02-30", "2019-04-31", "9999-99-99", "2019-1-1", "2019-01-1", "19-01-01", "02019-01-01", "2019-001-01", "2019-01-001", "20190101", "2019/01/01", "2019-01-01-", "2019-01-01 ", " 2019-01-01", "2019--1-01", "2019-+1-01", "2019-01-+1", "2019-01--1", "+019-01-01", "-019-01-01", "2019-0x-01", "２０１９-01-01", "2019-01-01T00:00:00Z"}
 
 var numberArg = map[string]bool{"value": true, "position": true, "min-elements": true, "max-elements": true, "fraction-digits": true, "range": true, "length": true}
 var numberGarbles = []string{"-", "+", "-0", "+1", "--1", "1-", "- 1", "01", "0x", "0x1F", "1_000", "1e3", "1.", ".5", "-.", "4294967296", "-2147483649", "18446744073709551616", "unbounded ", "max", "min", "0..", "..0", "1..2..3", "1 | | 2", "|", "-1..-2"}
